@@ -561,6 +561,9 @@ def bounded(ctx):
                             # several features and several /label qualifiers per feature, the resistance cassette named last
                             "theta.gb": gb_text("theta", p2, "CmR", multi=True),
                             "notes.txt": "hello", "gamma.genbank": gb_text("gamma", p3), "noext": gb_text("noext", p3),
+                            # extensions spelled in another case: not among the registry's extensions (pyfilesystem2 matches
+                            # patterns case-insensitively on some file systems, lookup by name does not)
+                            "upper.GBK": gb_text("upper", p3), "Mixed.Gb": gb_text("Mixed", p1),
                             "sub/zzz.gb": gb_text("zzz", p3), "sub/deep/yyy.gb": gb_text("yyy", p3)})
         # (file stems need not be the identifiers written inside the files: `renamed.gb` holds the record `inner_id`)
         d2 = make_dir(ctx, {"alpha.gb": gb_text("alpha", p3, "CmR"), "delta.gb": gb_text("inner_id", p2, "SpecR")})
